@@ -70,6 +70,8 @@ struct W {
     invalidated: bool,
     with_bind: bool,
     kept_once: bool,
+    reconcile_node: Incr<SV>,
+    keep_reconcile_obs: Option<Observer<SV>>,
 }
 
 impl W {
@@ -263,7 +265,7 @@ impl Scenario for DynSum {
         };
         expert.add_dependency(&reconcile_node);
         let top = expert.watch().map(|x| app(5, &[x.clone()]));
-        let mut w = ManuallyDrop::new(W { state, xs, selb, ctl, children, expert, top, obs: None, obs_in_use: false, keep_child_obs: None, sh, dirty: false, invalidated: false, with_bind, kept_once: false });
+        let mut w = ManuallyDrop::new(W { state, xs, selb, ctl, children, expert, top, obs: None, obs_in_use: false, keep_child_obs: None, sh, dirty: false, invalidated: false, with_bind, kept_once: false, reconcile_node: reconcile_node.clone(), keep_reconcile_obs: None });
         let warm = self.warm;
         let r = catch(|| {
             w.sh.add_first.set(choose(2) == 1);
@@ -279,6 +281,7 @@ impl Scenario for DynSum {
             for _ in 0..self.len {
                 #[derive(Debug, Clone)]
                 enum A {
+                    KeepReconcile,
                     DropKeepChild,
                     Plan(usize, u8),
                     WriteCtl,
@@ -320,6 +323,9 @@ impl Scenario for DynSum {
                     }
                 } else {
                     acts.push(A::DropKeepChild);
+                }
+                if w.keep_reconcile_obs.is_none() {
+                    acts.push(A::KeepReconcile);
                 }
                 if !w.sh.want_stale.get() && !w.sh.did_stale.get() {
                     acts.push(A::AskStale);
@@ -364,6 +370,13 @@ impl Scenario for DynSum {
                         w.obs = None;
                         w.dirty = true;
                         cover("expert-unobserved");
+                    }
+                    A::KeepReconcile => {
+                        // the child that edits the dependencies stays needed without the expert node:
+                        // dependencies are then added and removed while the expert node is unobserved
+                        w.keep_reconcile_obs = Some(w.reconcile_node.observe());
+                        w.dirty = true;
+                        cover("reconcile-node-kept-needed-by-another-observer");
                     }
                     A::DropKeepChild => {
                         w.keep_child_obs = None;
